@@ -283,7 +283,8 @@ LATER = {
     "C13": " Also: data is never part of a format string that builds markup.",
     "C11": " Also: the cache file is written once per generated listing, after the last change. Also: nothing on the failure path of a cache load formats with request text as the format string.",
     "C05": " Also: WAP recognition followed by handle() takes the prefix off once (evaluated in that order).",
-    "C14": " Also: what a worker thread runs on the shared server object only reads it.",
+    "C14": " Also: what a worker thread runs on the shared server object only reads it; class-level containers are not changed in place "
+           "through instances; a dbm/shelve cache is written under a guard that covers a racing second writer.",
     "C03": " Also: the not-found exception's text is total (evaluated on selectors with % and braces); request text is never a format "
            "string. Also: request text kept in a table of the protocol (the header table) stays request text when read back; values parsed "
            "from it into date/number objects are ordered only under a guard.",
@@ -300,14 +301,14 @@ LATER = {
     "C12": " Also: the log routine used by the not-found exception is total on texts with format characters, and so is the exception's own text (evaluated); names bound in a try body are bound on every way out of its handlers.",
     "C15": " Also: entries are populated through the handler's own file-system view; the block of an empty or blank side file "
            "is rendered (getblock evaluated with the real accessors).",
-    "C16": " Also: entries inside an archive are populated through the archive view; members are opened by the name the index "
+    "C16": " Also: the member path is what follows the archive's selector, once (evaluated). Also: entries inside an archive are populated through the archive view; members are opened by the name the index "
            "gave, not by the request path; the archive view keeps no module-level tables between requests.",
     "C17": " Also: tal:define statements are evaluated in order, each local unless it says global (compiler evaluated); a path step the value does not have is a missing path (evaluated); slot fillers are cleared after the expansion they were given to.",
     "C18": " Also: attribute values are taken as html.parser hands them over on every interpreter from 3.7 on (version test and "
            "start-tag callback evaluated for nine interpreter versions); the scope stack is popped only after the element's locals.",
     "C19": " Also: no privileged call sits in a with block whose manager can swallow an exception (suppress, ExitStack callbacks "
            "that can return true, repo managers); a failed bind propagates and nothing binds later.",
-    "C20": " Also: no context manager of the server swallows what is raised in its block; the connection handler's output file is "
+    "C20": " Also: the except clauses of the connection handler only report (nothing there calls back into protocol or handlers). Also: no context manager of the server swallows what is raised in its block; the connection handler's output file is "
            "unbuffered or flushed inside its try, so a write error cannot surface in finish(); SIGPIPE stays ignored.",
 }
 
